@@ -94,7 +94,8 @@ pub fn run_twin(tr: &mut Trace, run: u64, seed: u64, noinject: bool) -> u64 {
                     let n = ri.range(1, 3);
                     for _ in 0..n {
                         let base = ri.pick(&acks_seen).clone();
-                        let s = p.ep[0].hc.as_ref().unwrap().verif_snapshot();
+                        // (a call that panicked is data: the endpoint is gone, the run ends below with a Ret line)
+                        let s = match p.ep[0].hc.as_ref() { Some(hc) => hc.verif_snapshot(), None => break };
                         let kind = (ri.below(4) + inj_kind_bias) % 4;
                         let bytes: Option<Vec<u8>> = match kind {
                             0 => Some(base),                                   // replay of a genuine ack frame (any age)
@@ -138,7 +139,7 @@ pub fn run_twin(tr: &mut Trace, run: u64, seed: u64, noinject: bool) -> u64 {
                 }
             }
             if p.dead {
-                tr.line(json!({"ev": "Ret", "ep": "twin", "call": "any", "outcome": "panic", "msg": "endpoint died", "file": "", "t": 0}));
+                tr.line(json!({"ev": "Ret", "ep": "twin", "call": "any", "outcome": "panic", "msg": "endpoint died", "file": "", "t": 0, "twin": twin, "k": k}));
                 break;
             }
             let hc = p.ep[0].hc.as_ref().unwrap();
